@@ -1533,6 +1533,7 @@ pub enum Family {
   OptionalRun,
   JoinRepeat,
   PatternRepeat,
+  ArrayChoiceNest,
 }
 
 pub const FAMILIES: &[Family] = &[
@@ -1558,6 +1559,7 @@ pub const FAMILIES: &[Family] = &[
   Family::OptionalRun,
   Family::JoinRepeat,
   Family::PatternRepeat,
+  Family::ArrayChoiceNest,
 ];
 
 pub struct Case {
@@ -1674,6 +1676,15 @@ pub fn family_case(f: Family, n: usize) -> Case {
         "root = tstr .regexp \"(a*)*b\" / tstr .pcre \"^(a+)+$\" / tstr .abnf \"r\\nr = *(*\\\"a\\\") \\\"b\\\"\\n\" / tstr .iregexp \"(a|aa)*b\"\n".into(),
         Doc::Text(format!("{}c", "a".repeat(n))),
       )
+    }
+    Family::ArrayChoiceNest => {
+      // a choice between two alternatives that both accept the (valid) document, at every nesting level: a
+      // validator that keeps trying alternatives after one has matched doubles its work per level
+      let mut x = Doc::Array(vec![]);
+      for _ in 1..n.max(1) {
+        x = Doc::Array(vec![x]);
+      }
+      mk("root = [* ([* root] / [* root])]\n".into(), x)
     }
     Family::OptionalRun => {
       let fields: Vec<String> = (0..n).map(|_| "? int".to_string()).collect();
